@@ -442,12 +442,27 @@ func main() {
 			os.Exit(2)
 		}
 		counts := map[string]int{}
-		var resetFuncs []string
+		var resetFuncs, digestFuncs []string
 		for i, f := range p.Syntax {
 			r := &rewriter{pkg: p, file: f, modes: m, counts: counts}
 			var rs []string
 			if m["reset"] {
 				rs = resetStmts(p, f)
+			}
+			var globals []string
+			if m["digest"] {
+				for _, d := range f.Decls {
+					if gd, ok := d.(*ast.GenDecl); ok && gd.Tok == token.VAR {
+						for _, sp := range gd.Specs {
+							for _, n := range sp.(*ast.ValueSpec).Names {
+								if n.Name != "_" {
+									globals = append(globals, n.Name)
+								}
+							}
+						}
+					}
+				}
+				astutil.AddNamedImport(p.Fset, f, "verifmt", "fmt")
 			}
 			f.Comments = nil
 			astutil.Apply(f, r.pre, r.post)
@@ -479,6 +494,14 @@ func main() {
 						fmt.Fprintf(&b, "\t%s()\n", fn)
 					}
 					b.WriteString("}\n")
+				}
+			}
+			if m["digest"] {
+				fn := fmt.Sprintf("verifDigest%d", i)
+				fmt.Fprintf(&b, "\nfunc %s() string {\n\treturn verifmt.Sprint(%s)\n}\n", fn, strings.Join(append([]string{`""`}, globals...), ", "))
+				digestFuncs = append(digestFuncs, fn+"()")
+				if i == len(p.Syntax)-1 {
+					fmt.Fprintf(&b, "\n// VerifGlobalsDigest renders every package-level variable.\nfunc VerifGlobalsDigest() string {\n\treturn %s\n}\n", strings.Join(digestFuncs, " + "))
 				}
 			}
 			src := p.CompiledGoFiles[i]
